@@ -1,0 +1,32 @@
+//go:build verif
+
+package parentpb
+
+// Machine-checked contracts for this package (comment-only; excluded from normal builds).
+
+//@ property C15
+//@ func capPageSize(pageSize) (r)
+//@   ensures pageSize == 0 ==> r == 50
+//@   ensures pageSize > 1000 ==> r == 1000
+//@   ensures pageSize != 0 && pageSize <= 1000 ==> r == pageSize
+//@   modifies nothing
+//@
+//@ pure func allChildren(cs) = forall i int :: 0 <= i && i < len(cs) ==> cs[i] != nil
+//@ pure func distinctNames(cs) = forall i int, j int :: 0 <= i && i < j && j < len(cs) ==> cs[i].Name != cs[j].Name
+//@
+//@ // a fresh slice of the stored children; names are the collection keys, hence distinct (assumed, see C01/C20)
+//@ func (*Model).ListChildren() (res)
+//@   trusted
+//@   ensures allChildren(res) && distinctNames(res) && (len(res) > 0 ==> fresh(res))
+//@   modifies nothing
+//@
+//@ func (*ModelServer).ListChildren(ctx, request) (resp, err)
+//@   requires recv != nil && recv.model != nil && request != nil
+//@   ensures [negative] request.PageSize < 0 ==> err != nil
+//@   ensures [total] err == nil && len(all) <= 2147483647 ==> resp.TotalSize == len(all)
+//@   ensures [page] err == nil ==> 0 <= nextIndex && nextIndex <= upperBound && upperBound <= len(all) && resp.Children == all[nextIndex:upperBound]
+//@   ensures [size] err == nil ==> 1 <= pageSize && pageSize <= 1000 && (request.PageSize == 0 ==> pageSize == 50) && upperBound - nextIndex <= pageSize && (upperBound == len(all) || upperBound - nextIndex == pageSize)
+//@   ensures [last-page] err == nil && nextIndex + pageSize > len(all) ==> resp.NextPageToken == ""
+//@   replay ParentListChildren(request.PageSize)
+//@   loop 0 (k):
+//@     invariant 0 <= k && k <= upperBound - nextIndex
